@@ -16,6 +16,8 @@ LEVEL = "exploration"
 K_TOL = 1024.0
 EPS = 2.0 ** -52
 KEY_HYP = "C03-hyperbolic-solver"
+KEY_HYP_ACC = "C03-hyperbolic-bisection-accuracy"
+K_ACC = 2.0 ** 20    # with only KEY_HYP_ACC open the region is asserted with K*K_ACC: order-unity errors still fail
 KEY_HANG = "C03-hyperbolic-hang"
 KEY_512 = "C03-whfast512-large-step"
 KEY_512_PAD = "C03-whfast512-padding-scale"
@@ -285,6 +287,15 @@ def judge(ctx, c, bodies, what, extra=None):
         ctx.cls("known_region")
         ctx.stat_max("known_region_err_over_unit_tol", worst)
         return "excluded"
+    if known and not c.get("w512") and ctx.finding_open(KEY_HYP_ACC) and not loose:
+        # order-unity errors repaired, bisection fallback still less accurate than K: assert K*K_ACC
+        ctx.stat_max("known_region_err_over_unit_tol", worst)
+        if worst <= K_TOL * K_ACC:
+            if bad is not None:
+                ctx.excluded(KEY_HYP_ACC)
+                ctx.cls("known_region")
+                return "excluded"
+            return "asserted"
     if not loose:
         ctx.stat_max("err_over_unit_tol_hyp" if c["hyp"] else "err_over_unit_tol_ell", worst)
     if bad is not None:
@@ -564,9 +575,9 @@ def prepare(tier):
 
 def subs(tier):
     return [
-        Sub("direct", run_direct, strategy=orbit, quick=4000, thorough=120000, shards_quick=8, shards_thorough=16),
+        Sub("direct", run_direct, strategy=orbit, quick=3200, thorough=120000, shards_quick=8, shards_thorough=16),
         Sub("step", run_step, strategy=step_case([k for k in SCHEMES if k != "whfast512"], G_CHOICES),
-            quick=1600, thorough=40000, shards_quick=8, shards_thorough=16),
+            quick=1200, thorough=40000, shards_quick=8, shards_thorough=16),
         Sub("step512", run_step, strategy=step_case(["whfast512"], [1.0], w512=True), variant="avx512",
-            quick=800, thorough=16000, shards_quick=4, shards_thorough=8),
+            quick=640, thorough=16000, shards_quick=4, shards_thorough=8),
     ]
